@@ -311,9 +311,9 @@ let cmd_c13 (r : rd) : string =
   String.concat " ## " parts
 
 (* ---------- ENG: the v1 engine resume scenario (Contract/V1Resume.v) ----------
-   ENG <n> { <resp> <upd 0|1> <reentrant hex8|-> <refresh 0|1> <write hex8|-> }*n
-     resp = s | d:<hex> | f:<1..11> | r:<code>:<hex>
-   answer: w,rc1,b1,id2,rc2,b2;...;| <final value hex>     or  toomany *)
+   ENG <balance> <n> { <resp> <upd 0|1> <reentrant hex8|-> <refresh 0|1> <write hex8|-> <depth> <recurse> }*n
+     resp = s:<balance> | d:<balance>:<hex> | f:<1..11> | r:<code>:<hex>
+   answer: ok w,balance,rec,rc1,b1,id2,rc2,b2;...;| <final value hex> | <log sections>   or  trap <step>  or  toomany *)
 let bytes_of_hex (h : string) : n list =
   List.init (String.length h / 2) (fun i -> n_of_int64 (Int64.of_string ("0x" ^ String.sub h (2 * i) 2)))
 let failure_of_number (k : int) : invoke_failure =
@@ -323,6 +323,7 @@ let failure_of_number (k : int) : invoke_failure =
   | 9 -> FUpgradeInvalidVersion | 10 -> FSignatureDataMalformed | 11 -> FSignatureCheckFailed
   | _ -> raise (Bad "failure number")
 let cmd_eng (r : rd) : string =
+  let balance = n_of_string (next r) in
   let k = num r in
   let steps = times k (fun () ->
     let resp = next r in
@@ -330,21 +331,27 @@ let cmd_eng (r : rd) : string =
     let reent = next r in
     let refresh = num r = 1 in
     let wr = next r in
+    let depth = n_of_string (next r) in
+    let recurse = n_of_string (next r) in
     let resp = match String.split_on_char ':' resp with
-      | ["s"] -> RSuccess (N0, None)
-      | ["d"; h] -> RSuccess (N0, Some (bytes_of_hex h))
+      | ["s"; b] -> RSuccess (n_of_string b, None)
+      | ["d"; b; h] -> RSuccess (n_of_string b, Some (bytes_of_hex h))
       | ["f"; kk] -> RFailure (failure_of_number (int_of_string kk))
       | ["r"; code; h] -> RFailure (FContractReject (z_of_string code, bytes_of_hex h))
       | _ -> raise (Bad "response") in
     { es_resp = resp; es_upd = upd; es_reentrant = (if reent = "-" then None else Some (bytes_of_hex reent));
-      es_refresh = refresh; es_write = (if wr = "-" then None else Some (bytes_of_hex wr)) }) in
-  match engine_scenario steps with
-  | None -> "toomany"
-  | Some (obs, fin) ->
-      String.concat ";" (List.map (fun o ->
-        Printf.sprintf "%s,%s,%s,%s,%s,%s" (ustr (int64_of_n o.eo_word)) (ustr (int64_of_n o.eo_rc1)) (hex_of_bytes o.eo_bytes1)
+      es_refresh = refresh; es_write = (if wr = "-" then None else Some (bytes_of_hex wr));
+      es_depth = depth; es_recurse = recurse }) in
+  match engine_scenario balance steps with
+  | ETooMany -> "toomany"
+  | ETrap i -> "trap " ^ string_of_int (int_of_nat i)
+  | EDone (obs, fin, logs) ->
+      "ok " ^ String.concat ";" (List.map (fun o ->
+        Printf.sprintf "%s,%s,%s,%s,%s,%s,%s,%s" (ustr (int64_of_n o.eo_word)) (ustr (int64_of_n o.eo_balance)) (ustr (int64_of_n o.eo_rec))
+          (ustr (int64_of_n o.eo_rc1)) (hex_of_bytes o.eo_bytes1)
           (ustr (int64_of_n o.eo_id2)) (ustr (int64_of_n o.eo_rc2)) (hex_of_bytes o.eo_bytes2)) obs)
       ^ ";| " ^ hex_of_bytes fin
+      ^ " | " ^ String.concat "/" (List.map (fun sec -> String.concat "," (List.map hex_of_bytes sec)) logs)
 
 let () =
   try
